@@ -9,6 +9,8 @@ A *case* is a buffer configuration plus a JSON list of operations
                           admissible index (per task for the multi-task buffer)
     ["len"]               len(buffer)
     ["select", t]         select_task(t); t may be invalid (multi-task only)
+    ["save", how]         pickle.dumps / copy.deepcopy of the buffer (a read: the buffer that keeps
+                          running must be unchanged)
 
 which is interpreted against the real buffer and against an independent list-based
 reference model (a python list of the added transitions per task).  Every field of the
@@ -29,7 +31,8 @@ from vlib.instruments import StubGenerator
 PROPERTY = "C02"
 RULE = (
     "Cases are operation sequences (add bursts / sample with a seeded generator / exhaustive sweep "
-    "through a stub generator / len / select_task with valid and invalid ids) drawn by Hypothesis "
+    "through a stub generator / len / select_task with valid and invalid ids / taking a pickle or deep copy of "
+    "the running buffer) drawn by Hypothesis "
     "over ReplayBuffer, LAP, PrioritizedReplayBuffer and MultiTaskReplayBuffer(inner, 1-4 tasks), "
     "capacities 1-12, six key/dtype/shape schemas. Non-trivial (single): a sample or sweep is executed "
     "when more transitions were added than the capacity (after wrap-around). Non-trivial (multitask): "
@@ -299,6 +302,22 @@ class Interp:
         self._after_op(set(), "len")
         self.labels.add("len")
 
+    def op_save(self, how):
+        """Taking a copy of the buffer (pickle.dumps / copy.deepcopy, the way a checkpoint is written or a
+        MultiTaskReplayBuffer is built from a buffer in use) is a read: the buffer that keeps running still
+        holds exactly what it held."""
+        import copy
+        import pickle
+
+        if how == "deepcopy":
+            copy.deepcopy(self.buf)
+        else:
+            pickle.dumps(self.buf)
+        self._after_op(set(), f"{how} of the buffer")
+        self.labels.add("save-" + how)
+        if any(len(a) > self.m.N for a in self.m.added):
+            self.labels.add("save-after-wrap")
+
     def op_select(self, t):
         m = self.m
         t = int(t)
@@ -427,7 +446,8 @@ def _ops(cap, multi, n_tasks):
     sample = st.tuples(st.just("sample"),
                        st.one_of(st.integers(1, 4), st.integers(1, 2 * cap + 2), st.sampled_from([1, 8, 16])),
                        gen.seeds())
-    alts = [add, add, add, sample, sample, st.just(("sweep",)), st.just(("len",))]
+    save = st.tuples(st.just("save"), st.sampled_from(["pickle", "deepcopy"]))
+    alts = [add, add, add, sample, sample, st.just(("sweep",)), st.just(("len",)), save]
     if multi:
         sel = st.tuples(st.just("select"), st.one_of(st.integers(0, n_tasks - 1), st.integers(0, n_tasks - 1),
                                                       st.integers(-2, n_tasks + 2), st.just(10**6)))
